@@ -318,12 +318,16 @@ def _store_threshold(ctx: Ctx):
         ths = []
         for n in ast.walk(node):
             if isinstance(n, ast.If) and any(isinstance(x, ast.Raise) for x in n.body) and isinstance(n.test, ast.Compare) \
-                    and len(n.test.ops) == 1 and is_count(n.test.left) and not isinstance(n.test.ops[0], (ast.Is, ast.IsNot)):
-                k = n.test.comparators[0]
+                    and len(n.test.ops) == 1 and not isinstance(n.test.ops[0], (ast.Is, ast.IsNot)):
+                from sa.astutil import oriented
+                o = oriented(n.test, is_count)
+                if o is None:
+                    continue
+                op, _, k = o
                 kv = k.value if isinstance(k, ast.Constant) else None
-                if isinstance(n.test.ops[0], ast.Lt) and isinstance(kv, int):
+                if op == "lt" and isinstance(kv, int):
                     ths.append(kv)
-                elif isinstance(n.test.ops[0], ast.LtE) and isinstance(kv, int):
+                elif op == "le" and isinstance(kv, int):
                     ths.append(kv + 1)
                 else:
                     col.undecided(f"C18: refusal test `{u(n.test)}` of store")
